@@ -26,6 +26,9 @@ def check(ctx):
     provrules.rule_span_collections(ctx, facts, "R2")
     provrules.rule_span_records(ctx, facts, "R3")
     provrules.rule_scope_parent(ctx, facts, "R4")
+    # "the span set as local parent": setting it always opens a scope of its own (else the enclosing scope's parent is used)
+    from .. import scopes
+    scopes.rule_scope_always_opened(ctx, facts, "R4")
     provrules.rule_id_generator(ctx, facts, "R7")
     provrules.rule_token_derivation_total(ctx, facts, "R6")
     provrules.rule_token_order_preserved(ctx, facts, "R6")
